@@ -15,6 +15,8 @@ Transliteration of
                            `handle_rx_packet` (`NoSpaceSessions` ⇒ `Busy` + eviction; `Duplicate` ⇒
                            stand-alone ACK, the message never reaches the exchange),
 * `transport/mrp.rs`      `RetransEntry::{backoff_ms, retransmission_timeout_ms}`,
+* `dm/clusters/adm_comm.rs` `handle_open_commissioning_window` / `handle_open_basic_commissioning_window` (PAKE parameter
+                           validation, expiry check, `Busy` as cluster status) on a session that is not a CASE session,
 * `lib.rs`                `Matter::mdns_services` (commissionable record iff a window is present).
 
 One responder task exists per exchange (`tasks`); a task that returns is removed. Time is a `Nat`
